@@ -34,6 +34,10 @@ PROP = Property(
     design_ref='4/C03')
 
 
+CALLOUT_KEYS = {'FRU Type', 'Priority', 'Location Code', 'Part Number', 'Procedure', 'Description', 'CCIN',
+                'Serial Number', 'PCE MTMS', 'PCE Name', 'MRU Id'}
+
+
 def tf(b):
     return 'True' if b else 'False'
 
@@ -148,9 +152,11 @@ def check_src(name, entry, s, creator_chr, compnames, registry, plugins):
                             % (name, cnt, len(lst) if isinstance(lst, list) else '?', len(want)),
                             sig='C03.callouts.count')
         for i, (g, wnt) in enumerate(zip(lst, want)):
-            if g != wnt:
-                keys = sorted(set(g) | set(wnt))
-                bad = [k for k in keys if g.get(k) != wnt.get(k)]
+            # every expected key with its value, and none of the known callout keys that is not due;
+            # keys outside this vocabulary (additional information) are tolerated
+            keys = sorted((set(g) & CALLOUT_KEYS) | set(wnt))
+            bad = [k for k in keys if g.get(k) != wnt.get(k)]
+            if bad:
                 raise Violation('C03.callouts', '%s: callout %d of %d shows %r, encoded %r (differs in %r)'
                                 % (name, i, len(want), g, wnt, bad), sig='C03.callouts:%s' % bad[0])
 
